@@ -240,7 +240,8 @@ def readCount (count : Nat) (toks : List Str) : Option (List Str) :=
 
 def lineAt (ls : List Str) (i : Nat) : Str := (ls.drop i).headD []
 
-/-- `Spectrum.from_file(fname, mask_corners, return_comments=True)` on the text of the file -/
+/-- `Spectrum.from_file(fname, mask_corners, return_comments=True)` on the text of the file
+    (hand-written normal form; the driver runs the TRANSLATED `Gen.FileIO.fromFile`, proved equal in Lemmas/FileReaders.lean) -/
 def fromFile (mc : Bool) (text : Str) : Option (Spec × List Str) :=
   let ls := linesOf (univNL text)
   let comments := (ls.takeWhile startsHash).map commentOf
@@ -266,9 +267,10 @@ def fromFile (mc : Bool) (text : Str) : Option (Spec × List Str) :=
         | Option.none => Option.none
         | some fs => some (fs, comments)
 
-/-- `Numerics.array_from_file(fname, return_comments=True)`: shape, entries, comments.  `numpy.fromfile(fid, count, sep=' ')`
-    reads on across line ends; fewer than `count` entries make the `reshape` raise. -/
-def arrayFromFile (text : Str) : Option (List Nat × List Str × List Str) :=
+/-- `Numerics.array_from_file(fname, return_comments=True)`: (shape, entries), comments.  `numpy.fromfile(fid, count, sep=' ')`
+    reads on across line ends; fewer than `count` entries make the `reshape` raise.
+    (hand-written normal form; the driver runs the TRANSLATED `Gen.FileIO.arrayFromFile`, proved equal in Lemmas/FileReaders.lean) -/
+def arrayFromFile (text : Str) : Option ((List Nat × List Str) × List Str) :=
   let ls := linesOf (univNL text)
   let comments := (ls.takeWhile startsHash).map commentOf
   let rest := ls.dropWhile startsHash
@@ -278,7 +280,85 @@ def arrayFromFile (text : Str) : Option (List Nat × List Str × List Str) :=
     if shape = [] then Option.none else     -- `count=numpy.prod(())` is a float: TypeError
     let toks := splitWs ((rest.drop 1).flatten)
     if toks.length < prodL shape then Option.none
-    else some (shape, toks.take (prodL shape), comments)
+    else some ((shape, toks.take (prodL shape)), comments)
+
+/-! ## what the TRANSLATED readers are made of
+
+   `tools/gen_FileIO.py` translates the bodies of `Spectrum.from_file` and `Numerics.array_from_file` statement by statement
+   into `Gen.FileIO.fromFile` / `Gen.FileIO.arrayFromFile` (Generated/FileIO.lean) in terms of the primitives below: a text-mode
+   file object, `readline`, the two `while` loops, `numpy.fromstring` / `numpy.fromfile` / `reshape` on opaque tokens, the
+   conversion of constructor arguments.  `fromFile` / `arrayFromFile` above are the hand-written normal forms of the same
+   functions; Lemmas/FileReaders.lean proves the generated terms equal to them. -/
+
+/-- a text-mode file object: the lines not yet handed out (universal newlines already applied) -/
+abbrev Fid := List Str
+
+/-- `open(fname, 'r')` / `gzip.open(fname, 'rt')` on the text of the file -/
+def openText (text : Str) : Fid := linesOf (univNL text)
+
+/-- `fid.readline()`: the next line with its terminator; `''` at end of file -/
+def readline : Fid → Str × Fid
+  | [] => ([], [])
+  | l :: r => (l, r)
+
+/-- `s.startswith(p)` -/
+def startsWith (p s : Str) : Bool := p.isPrefixOf s
+/-- `s.endswith(suf)` -/
+def endsWith (suf s : Str) : Bool := suf.isSuffixOf s
+
+/-- `s.rstrip()` -/
+def rstrip (s : Str) : Str := (s.reverse.dropWhile isWs).reverse
+/-- `s.lstrip(chars)` -/
+def lstripChars (cs s : Str) : Str := s.dropWhile cs.contains
+/-- `s.rstrip(chars)` -/
+def rstripChars (cs s : Str) : Str := (s.reverse.dropWhile cs.contains).reverse
+/-- `s.strip(chars)` -/
+def stripChars (cs s : Str) : Str := rstripChars cs (lstripChars cs s)
+
+/-- `l[i]` for `i ≥ 0`; `none` = IndexError -/
+def idx {α : Type} (l : List α) (i : Nat) : Option α := l[i]?
+
+/-- `while line.startswith(p): comments.append(f(line)); line = fid.readline()` — state (comments, line, fid).
+    At end of file `readline` returns `''`, which starts with no non-empty `p` (the translator refuses an empty `p`). -/
+def whileStartsWith (p : Str) (f : Str → Str) : List Str → Str → Fid → List Str × Str × Fid
+  | cs, line, [] => if startsWith p line then (cs ++ [f line], [], []) else (cs, line, [])
+  | cs, line, l :: r => if startsWith p line then whileStartsWith p f (cs ++ [f line]) l r else (cs, line, l :: r)
+
+/-- `while toks[i] not in stops: acc.append(int(toks[i])); i += 1` on the tokens from position `i` on — state (acc, i);
+    `none` = IndexError (ran off the end) or ValueError (`int`) -/
+def scanInts (stops : List Str) : List Str → List Nat → Nat → Option (List Nat × Nat)
+  | [], _, _ => Option.none
+  | t :: ts, acc, i =>
+    if stops.contains t then some (acc, i)
+    else match parseInt t with
+      | some d => scanInts stops ts (acc ++ [d]) (i + 1)
+      | Option.none => Option.none
+
+def whileNotInAppendInt (stops : List Str) (toks : List Str) (acc : List Nat) (i : Nat) : Option (List Nat × Nat) :=
+  scanInts stops (toks.drop i) acc i
+
+/-- `count=numpy.prod(shape)`: `numpy.prod(())` is the float `1.0`, which `fromstring`/`fromfile` refuse (TypeError) -/
+def npProdCount (shape : List Nat) : Option Nat := if shape = [] then Option.none else some (prodL shape)
+
+/-- `numpy.fromstring(s, count=count, sep=' ')`: a flat array of `count` entries -/
+def fromstring (s : Str) (count : Nat) : Option (List Str) := readCount count (splitWs s)
+
+/-- `numpy.fromfile(fid, count=count, sep=' ')` on a text file: up to `count` entries, read across line ends (a shorter
+    array if the file runs out — the `reshape` that follows raises).  The file position afterwards is not modelled: the
+    translator refuses any read of `fid` after this call. -/
+def fromfileText (fid : Fid) (count : Nat) : List Str := (splitWs fid.flatten).take count
+
+/-- `a.reshape(*shape)` of a flat array: ValueError unless the sizes agree -/
+def reshape (a : List Str) (shape : List Nat) : Option (List Nat × List Str) :=
+  if a.length = prodL shape then some (shape, a) else Option.none
+
+/-- a float array (or `None`) passed as `mask=` to the constructor: non-zero = masked.  Only the tokens `0` / `1` are modelled. -/
+def maskArg : Option (List Nat × List Str) → Option PyVal
+  | Option.none => some PyVal.none
+  | some a => (a.2.mapM parseBit).map PyVal.marr
+
+/-- text or binary: `gzip.open` is binary unless the mode has a `t`; `open` is text unless the mode has a `b` -/
+def textMode (o : String × Str) : Bool := if o.1 == "gzip.open" then o.2.contains 't' else !(o.2.contains 'b')
 
 /-- entries of a masked array after `data.filled()` (Spectrum's fill value is nan) -/
 def filledRow (data : List Str) (mask : List Bool) : List Str :=
